@@ -468,3 +468,14 @@ def holds_any(conds, want, ints=None, env=None):
     cn = Canon()
     have = path_atoms(conds, ints, cn)
     return any(any(d == h for h in have) for d in disjuncts(want, ints, env, cn))
+
+
+def atom_text(t):
+    """deterministic text of a cond_atoms result (sets printed in sorted order)"""
+    if isinstance(t, Atom):
+        return repr(t)
+    if isinstance(t, tuple) and t and t[0] in ('and', 'or'):
+        return "(" + f" {t[0]} ".join(sorted(atom_text(x) for x in t[1])) + ")"
+    if isinstance(t, tuple) and t and t[0] == 'not':
+        return "not " + atom_text(t[1])
+    return repr(t)
